@@ -101,6 +101,7 @@ type schedResult struct {
 	probeOK    int
 	finalMax   uint32
 	err        string
+	visited    []string
 }
 
 const stepTimeout = 10 * time.Second
@@ -211,6 +212,7 @@ func runImplSched(s SchedCase) (res schedResult) {
 		}
 		cnt, mx, _ := maxinflight.VerifState(tb)
 		res.steps = append(res.steps, StepObs{Count: cnt, Max: mx, Out: ret, At: l, Holders: inflight})
+		res.visited = append(res.visited, l)
 	}
 	// drain: run every thread to the end of its call, holders give their slot back, in thread order
 	ids := make([]int, 0, len(workers))
@@ -272,6 +274,11 @@ func runSched(c *rig.Ctx, s SchedCase, record bool) bool {
 		return false
 	}
 	res := runImplSched(s)
+	if !record {
+		for _, l := range res.visited {
+			c.Count("sched-reached:" + l)
+		}
+	}
 	if res.err != "" {
 		return fail("diff", "c05.sched-rig", "schedule replay could not run on the real counter: "+res.err, res.steps, nil)
 	}
